@@ -98,6 +98,7 @@ impl Once {
 
     /// Returns `true` if some [`Once::call_once()`] call has completed successfully.
     pub fn is_completed(&self) -> bool {
+        shuttle_engine::runtime::thread::switch();
         ExecutionState::with(|state| {
             let init = match self.get_state(state) {
                 Some(init) => init,
